@@ -132,6 +132,12 @@ func (fc *FnCtx) doMapLookup(x *ssa.Lookup, m Val) {
 }
 
 func (fc *FnCtx) doMapUpdate(x *ssa.MapUpdate) {
+	fc.anchorArgs = []Val{fc.operand(x.Map), fc.operand(x.Key), fc.operand(x.Value)}
+	fc.anchorBefore("mapupdate", x.Pos())
+	defer func() {
+		fc.anchorArgs = nil
+		fc.anchorAfter("mapupdate", x.Pos())
+	}()
 	m := fc.operand(x.Map)
 	mt := x.Map.Type().Underlying().(*types.Map)
 	fc.oblige("nil", "mapupdate", not(eq(m.L[0], bvLit(0, 64))), x.Pos(), "assignment to entry in nil map")
@@ -315,6 +321,7 @@ func (fc *FnCtx) doSend(x *ssa.Send) {
 	_ = ch
 	inv, class := fc.chanInvFor(x.Chan)
 	anchor := "send " + class
+	fc.anchorArgs = []Val{ch, fc.operand(x.X)}
 	fc.anchorBefore(anchor, x.Pos())
 	if inv != nil {
 		env := fc.anchorEnv()
